@@ -99,10 +99,16 @@ func (c Compressor) DecompressWithLength(source io.Reader, dest io.Writer) error
 
 func decompress(source []byte) (dest []byte, err error) {
 	// try destination buffers of increased length to avoid allocating too much space, starting with twice the
-	// compressed length and up to eight times the compressed length
+	// compressed length and up to 256 times the compressed length (the LZ4 block format cannot compress by more
+	// than 255:1, so the last attempt is always large enough for a valid block)
 	compressedLength := len(source)
+	if compressedLength == 1 && source[0] == 0 {
+		// a single zero token is the LZ4 block of the empty message (see Compress); the lz4 library does not
+		// accept it, so handle it here as DecompressWithLength does
+		return []byte{}, nil
+	}
 	var written int
-	for i := compressedLength * 2; i <= compressedLength*8; i *= 2 {
+	for i := compressedLength * 2; i <= compressedLength*256; i *= 2 {
 		dest = make([]byte, i)
 		if written, err = lz4.UncompressBlock(source, dest); err == nil {
 			break
